@@ -25,7 +25,7 @@ ASSUMPTIONS = ["patches run on deep copies; the original is snapshotted", "docum
 
 def plan(tier, seed):
     n = 15 if tier == "quick" else 46
-    return [{"n": 600 if tier == "quick" else 3000} for _ in range(n)]
+    return [{"n": 600 if tier == "quick" else 15000} for _ in range(n)]
 
 
 def edit(doc, parts, what, new=None):
